@@ -262,6 +262,7 @@ func init() {
 			c.ConstIndexGuarded("C20")
 			c.DivisionGuarded("C20")
 			c.MetricLabelArity("C20")
+			c.AssertionsGuarded("C20")
 			c.AlignedLists("C20")
 			c.ForkJoinRules("C03") // the fork helper returns (and closes its channels) only after every worker reported: a send on a closed channel kills the process
 			c.ExplicitPanics("C20")
